@@ -316,9 +316,23 @@ func judgeC18(c c18Case) (string, string) {
 		return "", ""
 	}
 	// end to end: after a transfer with these follow-paths every request still resolves to the same entry
+	for _, inc := range [][]string{nil, {"m", "!m/zz"}} {
+		if k, m := c18Transfer(c, inc); k != "" {
+			if inc != nil {
+				return k + ":with-include-patterns", fmt.Sprintf("together with include patterns %q: %s", inc, m)
+			}
+			return k, m
+		}
+	}
+	return "", ""
+}
+
+// c18Transfer: the tree seen through FollowPaths = requests (plus, optionally, include patterns that select something
+// else and carry an exception) is transferred; every request must resolve in the copy as in the source.
+func c18Transfer(c c18Case, inc []string) (string, string) {
 	dst := scratch.Dir("follow")
 	defer scratch.Remove(dst)
-	view, err := fsutil.NewFilterFS(memfs.New(c.Tree), &fsutil.FilterOpt{FollowPaths: c.Requests})
+	view, err := fsutil.NewFilterFS(memfs.New(c.Tree), &fsutil.FilterOpt{FollowPaths: c.Requests, IncludePatterns: inc})
 	if err != nil {
 		return "view-failed", err.Error()
 	}
